@@ -11,6 +11,10 @@ TOK_NOTE = ("Trusted: TLC/SANY, CommunityModules Json/IOUtils, CPython, the reco
             "(quick: all streams <= 7 frames x 288 tuples + an init-phase grid to 8 frames); beyond it the claim rests on "
             "seeded sampling judged by TLC.")
 
+READER_NOTE = ("Trusted: TLC/SANY, CommunityModules, CPython, wave module, the bytes<->sample-id projection (harness/audio.py). "
+               "Durations are generated so that the exact product with the rate is an integer or >= 0.05 from the rounding switch point "
+               "(float ambiguity, observation O1); hop sizes below one sample are not generated. Exhaustive only within the tier bound.")
+
 CHECKS = {
     "C01": dict(
         text="TLC proves C01 on the implementation-shaped Tokenizer spec for every parameter tuple x validity stream of the tier "
@@ -38,6 +42,19 @@ CHECKS = {
              "on every prefix of sampled streams, judged by TLC.",
         ref="DESIGN.md 5/C08", technique="TLA+ model checking (TLC, invariants + action property) + behaviour replay + trace validation",
         note=TOK_NOTE),
+    "C10": dict(
+        text="TLC proves on the Reader spec that the implementation-shaped wrapper stack (limiter counter, overlap generator phases, "
+             "recorder) returns exactly the declarative closed form of the statement for every configuration (n,b,h,max_read,record) "
+             "and operation history of the bound; every exported maximal history is executed on a real AudioReader over 7 source "
+             "kinds; long seeded histories with decimal durations are judged by TLC (ReaderTrace). Construction rejections are a decision table.",
+        ref="DESIGN.md 5/C10, Appendix D", technique="TLA+ model checking (TLC) + spec->code history replay + code->spec trace validation",
+        note=READER_NOTE),
+    "C19": dict(
+        text="Same Reader spec: invariants C19 (recorded data = consumed prefix, each sample once, never beyond max_read) and C19Replay "
+             "(blocks after a rewind replay those before it); data before the first rewind and data/rewind on non-recording readers "
+             "are error outcomes of the spec; legs R/T as for C10 with histories read^k rewind read^j rewind ...",
+        ref="DESIGN.md 5/C19, Appendix D", technique="TLA+ model checking (TLC) + spec->code history replay + code->spec trace validation",
+        note=READER_NOTE),
 }
 
 
